@@ -614,6 +614,18 @@ def run(cmd, timeout=600, env=None, cwd=None, stdin=None):
     return collections.namedtuple("R", "returncode stdout stderr timed_out")(p.returncode, p.stdout, p.stderr, False)
 
 
+def panic_in_code_under_test(stderr):
+    """For a Go process that died with a panic: True if the innermost non-runtime frame of the
+    panicking goroutine belongs to the code under test, False if it belongs to the harness."""
+    m = re.search(r"\n(goroutine \d+ \[running\]:\n(?:.*\n)*?)\n", stderr + "\n\n")
+    block = m.group(1) if m else stderr
+    for fn in re.findall(r"\n([\w./*()\[\]{}-]+)\(.*\)\n\t", "\n" + block):
+        if fn.startswith("runtime.") or fn.startswith("panic(") or fn.startswith("sync.") or fn.startswith("internal/"):
+            continue
+        return not (fn.startswith("verifharness/") or fn.startswith("main."))
+    return True
+
+
 def race_in_code_under_test(stderr):
     """True if a Go race report names an access whose innermost non-runtime frame is in the code under
     test (not in the harness / standard library driven by the harness)."""
